@@ -23,7 +23,7 @@ def kindOf (s : Str) : Kind :=
   | ['m'] => .mod | ['s'] => .submod | ['t'] => .type | ['p'] => .proc
   | ['g'] => .prog | ['f'] => .file | ['b'] => .block | _ => .ext
 
-/-- kind;ptype;flags;uses;anc;comps;calls;bindings;modprocs;impl;deps;boundprocs;internals;maxDepth;maxNodes -/
+/-- kind;ptype;flags;uses;anc;comps;calls;bindings;modprocs;impl;deps;boundprocs;internals;maxDepth;maxNodes;cls -/
 def parseEnt (s : Str) : Ent :=
   let f := splitOn ';' s
   let g := fun i => f.getD i []
@@ -36,7 +36,7 @@ def parseEnt (s : Str) : Ent :=
     uses := natList (g 3), anc := natOpt (g 4), comps := natList (g 5)
     calls := natList (g 6), bindings := natList (g 7), modprocs := natList (g 8)
     impl := natOpt (g 9), deps := natList (g 10), boundprocs := natList (g 11)
-    internals := natList (g 12), maxDepth := natOf (g 13), maxNodes := natOf (g 14) }
+    internals := natList (g 12), maxDepth := natOf (g 13), maxNodes := natOf (g 14), cls := natOf (g 15) }
 
 def showNats (l : List Nat) : Str := joinSep ',' (l.map showNat)
 
